@@ -84,7 +84,7 @@ def gen_plan(rng):
         if "qq_depth" in sigma:
             sigma.pop("qq_depth_min", None)
             sigma.pop("qq_depth_max", None)
-        if "sec_colon_required" in sigma:
+        if sigma.get("sec_colon_required") is True:
             sigma.pop("sec_colon_cautious", None)
         draw["sigma"] = sigma
         focus = rng.choice(sorted(sigma))
@@ -141,9 +141,19 @@ def gen_plan(rng):
             sig["default_ns"] = rng.choice(("n", "s", "s"))
         if rng.random() < 0.7:
             sig["default_ew"] = rng.choice(("e", "w", "e"))
-        if rng.random() < 0.4 or not sig:
-            sig["ocr_scrub"] = True
+        if rng.random() < 0.5 or not sig:
+            sig["ocr_scrub"] = rng.random() < 0.6
         draw["sigma"] = sig
+        if rng.random() < 0.6:
+            oldv = {}
+            for n_, v_ in sig.items():
+                if n_ == "ocr_scrub":
+                    oldv[n_] = not v_
+                else:
+                    ov = _other_value(rng, n_, v_)
+                    if ov is not None:
+                        oldv[n_] = ov
+            draw["old"] = oldv
         draw["text"] = corpus.gen_block(rng)
         draw["tw"] = _gen_tw(rng, ocr="ocr_scrub" in sig)
     return draw
@@ -213,6 +223,20 @@ def build(draw):
             pairs.append(("A", "C", "final"))
             pairs.append(("A", "C2", "final"))
             pairs.append(("A", "C-", "ret_vs_tracts"))
+        if len(sigma) >= 2:
+            ks = list(sigma)
+            for tag, cut in (("X", 1), ("X'", len(ks) - 1)):
+                sa = {k: sigma[k] for k in ks[:cut]}
+                sb = {k: sigma[k] for k in ks[cut:]}
+                for t2, (cfg_part, kw_part) in ((tag, (sa, sb)),
+                                                (tag + "r", (sb, sa))):
+                    if all(n in opgen.PLSS_PARSE_KW for n in kw_part):
+                        H[t2] = [desc(txt(cfg_part, sep), wait_to_parse=True,
+                                      **base), parse(**kw_part)]
+                        H[t2 + "-"] = [desc(txt(cfg_part, sep), **base),
+                                       parse(commit=False, **kw_part)]
+                        pairs.append(("A", t2, "final"))
+                        pairs.append(("A", t2 + "-", "ret_vs_tracts"))
         init = {k: v for k, v in sigma.items() if k in INIT_KW["PLSSDesc"]}
         if init:
             rest = {k: v for k, v in sigma.items() if k not in init}
@@ -248,7 +272,12 @@ def build(draw):
             s1 = {k: sigma[k] for k in ks[:1]}
             s2 = {k: sigma[k] for k in ks[1:]}
             H["B2"] = [tract(txt(s1, sep)), setc(txt(s2, sep)), parse()]
-            pairs.append(("A", "B2", "final"))
+            H["X"] = [tract(txt(s1, sep)), parse(**s2)]
+            H["Xr"] = [tract(txt(s2, sep)), parse(**s1)]
+            H["X-"] = [tract(txt(s1, sep), parse_qq=True),
+                       parse(commit=False, **s2)]
+            pairs += [("A", "B2", "final"), ("A", "X", "final"),
+                      ("A", "Xr", "final"), ("A", "X-", "ret_vs_lots_qqs")]
     elif fam == "precedence" and cls == "PLSSDesc":
         base = {}
         if any(n in TRACT_LEVEL for n in sigma) and "parse_qq" not in sigma:
@@ -377,6 +406,25 @@ def build(draw):
         if kw and len(kw) == len(sigma):
             H["K"] = [dict(ft, kw=kw)]
             pairs.append(("A", "K", "trs"))
+        if old:
+            o_text = txt(old, sep)
+            H["P"] = [tract(o_text),
+                      {"op": "set_twprgesec", "tw": tw, "kw": dict(sigma)}]
+            H["Q"] = [tract(o_text), setc(s_text),
+                      {"op": "set_twprgesec", "tw": tw, "kw": {}}]
+            pairs += [("A", "P", "trs"), ("A", "Q", "trs")]
+            if kw and len(kw) == len(sigma):
+                H["Pf"] = [dict(ft, config=o_text, kw=kw)]
+                pairs.append(("A", "Pf", "trs"))
+        if len(sigma) >= 2:
+            ks = list(sigma)
+            sa = {k: sigma[k] for k in ks[:1]}
+            sb = {k: sigma[k] for k in ks[1:]}
+            H["X"] = [tract(txt(sa, sep)),
+                      {"op": "set_twprgesec", "tw": tw, "kw": dict(sb)}]
+            H["Xr"] = [tract(txt(sb, sep)),
+                       {"op": "set_twprgesec", "tw": tw, "kw": dict(sa)}]
+            pairs += [("A", "X", "trs"), ("A", "Xr", "trs")]
     return H, pairs
 
 
